@@ -286,11 +286,12 @@ class Gen:
         return self.all_type_members.get(id(tdecl), [])
 
     def completion_site(self, m: Mod, scope: dict, indent: int, also_visible):
-        """completion: the variables and procedures offered for a typed prefix are exactly the visible ones
+        """completion: the variables, procedures and derived types offered for a typed prefix are exactly the visible ones
         (own random stream: the definition sites above keep their programs)"""
         r, L = self.r2, m.lines
         pad = " " * indent
-        cands = sorted(n for n, d in scope.items() if d.kind in ("var", "proc"))
+        # (a derived type is named in an executable statement by its structure constructor)
+        cands = sorted(n for n, d in scope.items() if d.kind in ("var", "proc", "type"))
         if cands and r.random() < 0.7:
             pick = r.choice(cands)
             prefix = pick[: r.randint(1, len(pick))]
@@ -387,12 +388,8 @@ def check_completion(files, g: "Gen", mode=0):
                 return {"completion_site": {"file": f, "line": ln, "text": files[f].split("\n")[ln]}, "error": r["error"].get("message")}
             labels = {str(i.get("label")).lower() for i in (r.get("result") or [])}
             offered = {l for l in labels if l in universe}
-            # derived types and modules may be offered too: only variables and procedures are compared
-            kinds = {}
-            for m in g.mods:
-                for n, d in m.decls.items():
-                    kinds.setdefault(n, d.kind)
-            offered = {l for l in offered if kinds.get(l, "var") in ("var", "proc") and l not in {m.name for m in g.mods}}
+            # modules are not candidates of a statement; variables, procedures and derived types are compared
+            offered = {l for l in offered if l not in {m.name.lower() for m in g.mods}}
             want = {n.lower() for n in expected}
             if offered != want:
                 return {"completion_site": {"file": f, "line": ln, "text": files[f].split("\n")[ln], "typed": prefix},
